@@ -171,6 +171,12 @@ def key_universes(rng, n):
     shapes = [T.NAT, T.STRING, T.pair(T.NAT, T.STRING), T.pair(T.INT, T.pair(T.BOOL, T.BYTES)), T.or_(T.NAT, T.STRING), T.option(T.INT),
               T.pair(T.option(T.NAT), T.or_(T.BOOL, T.STRING)), T.ADDRESS, T.KEY_HASH, T.TIMESTAMP, T.MUTEZ, T.BYTES, T.BOOL, T.KEY, T.SIGNATURE,
               T.CHAIN_ID, T.UNIT, T.option(T.pair(T.STRING, T.INT))]
+    # one destination with no entrypoint, entrypoints sorting before and after "default", and a second destination
+    kt1 = P.address_from_str('KT1BEqzn5Wx8uJrZNvuS9DVHmLvG9td3fDLi')[0]
+    tz1 = P.address_from_str('tz1VSUr8wwNhLAzempoch5d6hLRiTh8Cjcjb')[0]
+    fixed = [(kt1, ''), (kt1, 'approve'), (kt1, 'burn'), (kt1, 'transfer'), (kt1, 'deck'), (tz1, '')]
+    out.append((T.ADDRESS, O.sort_unique(T.ADDRESS, fixed)))
+    out.append((T.pair(T.ADDRESS, T.NAT), O.sort_unique(T.pair(T.ADDRESS, T.NAT), [(a, 1) for a in fixed[:4]])))
     for i in range(n):
         kt = shapes[i % len(shapes)] if i < 2 * len(shapes) else G.gen_type(rng, 2, 'comparable')
         pool = G.comparable_pool(rng, kt, 6)
@@ -193,7 +199,7 @@ def run(ctx):
     unis = key_universes(rng, ctx.pick(40, 400))
     n = ctx.pick(2400, 120000) // ctx.nshards
     for i in range(n):
-        kt, uni = unis[rng.randrange(len(unis))]
+        kt, uni = unis[i % 2] if i % 10 == 0 else unis[rng.randrange(len(unis))]      # the two fixed address universes come round regularly
         code, ops = history(rng, kt, uni, rng.randint(1, L_))
         ctx.count('histories')
         out = K.run_case(ctx, PID, 'history', code, None, 'values', False, {'ops': ops})
